@@ -1,6 +1,7 @@
 package monitors
 
 import (
+	"errors"
 	"fmt"
 	"math/big"
 	"math/rand/v2"
@@ -349,10 +350,19 @@ func c02Check(r *ev.Run, rng *rand.Rand, id string, c c02Case, nPerm int) int64 
 			report("timemath.Median", "state:slice not a permutation of input", map[string]any{"after": after, "input": in})
 		}
 		// --- measurements
+		// every second permutation hands in measurements some of which carry an error of an
+		// earlier failure (the result's error must be nil whatever the inputs' error fields say)
+		withErr := pi%2 == 1
+		inErr := func(p int) error {
+			if withErr && (c.Vals[p]^int64(p))&3 == 0 {
+				return errC02Input
+			}
+			return nil
+		}
 		mk := func() []measurements.Measurement {
 			ms := make([]measurements.Measurement, n)
 			for i, p := range perm {
-				ms[i] = measurements.Measurement{Timestamp: tss[p], Offset: time.Duration(c.Vals[p])}
+				ms[i] = measurements.Measurement{Timestamp: tss[p], Offset: time.Duration(c.Vals[p]), Error: inErr(p)}
 			}
 			return ms
 		}
@@ -395,12 +405,22 @@ func c02Check(r *ev.Run, rng *rand.Rand, id string, c c02Case, nPerm int) int64 
 				o  int64
 				t  int64
 				ns int
+				e  int
 			}
 			a := make([]pr, n)
 			b := make([]pr, n)
+			ecode := func(e error) int {
+				switch e {
+				case nil:
+					return 0
+				case errC02Input:
+					return 1
+				}
+				return 2
+			}
 			for i := range ms {
-				a[i] = pr{int64(ms[i].Offset), ms[i].Timestamp.Unix(), ms[i].Timestamp.Nanosecond()}
-				b[i] = pr{c.Vals[i], tss[i].Unix(), tss[i].Nanosecond()}
+				a[i] = pr{int64(ms[i].Offset), ms[i].Timestamp.Unix(), ms[i].Timestamp.Nanosecond(), ecode(ms[i].Error)}
+				b[i] = pr{c.Vals[i], tss[i].Unix(), tss[i].Nanosecond(), ecode(inErr(i))}
 			}
 			less := func(x, y pr) int {
 				if x.o != y.o {
@@ -414,19 +434,19 @@ func c02Check(r *ev.Run, rng *rand.Rand, id string, c c02Case, nPerm int) int64 
 				} else if x.t > y.t {
 					return 1
 				}
-				return x.ns - y.ns
+				if x.ns != y.ns {
+					return x.ns - y.ns
+				}
+				return x.e - y.e
 			}
 			slices.SortFunc(a, less)
 			slices.SortFunc(b, less)
 			if !slices.Equal(a, b) {
 				report(fn, "state:slice not a permutation of input", nil)
 			}
-			for i := range ms {
-				if ms[i].Error != nil {
-					report(fn, "state:slice element error changed", nil)
-					break
-				}
-			}
+		}
+		if withErr {
+			r.Class("measurements:inputs carrying errors")
 		}
 		ms := mk()
 		var m measurements.Measurement
@@ -483,6 +503,8 @@ func c02Check(r *ev.Run, rng *rand.Rand, id string, c c02Case, nPerm int) int64 
 	}
 	return evals
 }
+
+var errC02Input = errors.New("error of an earlier failed measurement")
 
 func fbucket(f int) string {
 	switch {
